@@ -21,7 +21,7 @@
 (* allocation and ordering policy and is what the properties talk about.   *)
 (* Module EntityPool predicts the handles, module Arche the hidden state.  *)
 (***************************************************************************)
-EXTENDS Integers, Sequences, FiniteSets, TLC, EntityPool
+EXTENDS Integers, Sequences, FiniteSets, TLC, EntityPool, GenericFilter
 
 Zero == <<0, 0>>
 
@@ -52,7 +52,7 @@ EmptyFun == [x \in {} |-> 0]
 
 InitWorld(cfg) ==
     [ alive |-> {}, iss |-> <<>>, comps |-> EmptyFun, vals |-> EmptyFun, tgt |-> EmptyFun,
-      res |-> EmptyFun, open |-> EmptyFun, nq |-> 0, regs |-> <<>>, cfg |-> cfg, pool |-> PoolInit ]
+      res |-> EmptyFun, open |-> EmptyFun, nq |-> 0, regs |-> <<>>, cfg |-> cfg, pool |-> PoolInit, gfs |-> <<>> ]
 
 Locked(w) == DOMAIN w.open # {}
 
@@ -325,7 +325,7 @@ BatchRemoveUpWhy(w, f) == First(<< LockWhy(w), IF ~FilterUsable(w, f) THEN "args
 BatchRemoveStep(w, M) == DropEntities(w, M)
 BatchRemoveEvents(w, M) == { RemoveEvent(w, h) : h \in M }
 
-ResetStep(w) == [InitWorld(w.cfg) EXCEPT !.regs = w.regs, !.nq = w.nq]
+ResetStep(w) == [InitWorld(w.cfg) EXCEPT !.regs = w.regs, !.nq = w.nq, !.gfs = w.gfs]
 
 (* LoadEntities: only into a world that has no entity slots (fresh or reset). *)
 LoadWhy(w) == First(<< LockWhy(w), IF Len(w.pool.ents) > 1 \/ w.pool.avail > 0 THEN "args" ELSE "" >>)
@@ -341,10 +341,11 @@ ResStep(w, add, r, tok) ==
     ELSE [w EXCEPT !.res = [x \in DOMAIN w.res \ {r} |-> w.res[x]]]
 
 (* Held queries *)
-OpenHeld(w, order, pend) ==
+OpenHeldP(w, order, pend, prop) ==
     [w EXCEPT !.open = [q \in DOMAIN w.open \cup {w.nq} |->
-                            IF q = w.nq THEN [order |-> order, pos |-> 0, pend |-> pend] ELSE w.open[q]],
+                            IF q = w.nq THEN [order |-> order, pos |-> 0, pend |-> pend, prop |-> prop] ELSE w.open[q]],
               !.nq = @ + 1]
+OpenHeld(w, order, pend) == OpenHeldP(w, order, pend, "C03")
 
 CloseHeld(w, q) == [w EXCEPT !.open = [x \in DOMAIN w.open \ {q} |-> w.open[x]]]
 
